@@ -87,6 +87,10 @@ def run(o, ctx, tier, seed, replay=None):
     metas, lines = [], []
     for ops, gets, nodate in G.cases(seed, t):
         metas.append((ops, gets)); lines.append(G.line(ops, gets, nodate))
+    for fl in fuzz_cases(o, ctx, "hdr", t, seed):
+        pl = G.parse_line(fl)
+        if pl is not None:
+            metas.append(pl); lines.append(fl)
     impl, model = diff_run(o, ctx, lines, nontrivial=lambda c, a: c.count(";") >= 1,
                            tags=lambda c, a: "ops=%d" % min(9, c.split("|")[0].count(";") + 1))
     for (ops, gets), c, a in zip(metas, lines, impl):
